@@ -147,5 +147,22 @@ def writeChunks : List Bytes → M Unit
 /-- Run on a device, fault-free. -/
 def runPure {α} (m : M α) (d : Dev) : Out α × Dev := m none d
 
+/-- **std's retry loops.**  `read_exact`, `write_all`, `read_to_end`, `io::copy` - and a hand-written
+`Err(ref e) if e.kind() == ErrorKind::Interrupted => continue` - issue an I/O call again when it fails with
+`ErrorKind::Interrupted`; every other kind is forwarded.  For a computation `m` ALL of whose I/O calls sit in such
+loops: when the device fails with that kind and the fault index falls among the calls `m` makes, the failing call
+is repeated - one more call is counted - and nothing else differs from the failure-free run (a failed call
+moves nothing, the single fault is spent); in every other case `m` is unchanged.
+NB the primitives `read` / `write` / `seek` / `flush`, `readExact` and `writeAll` themselves model a failure of
+EVERY kind as a hard one (`prim`): model functions written before this combinator existed describe `Interrupted`
+faults only where they are wrapped in it (the streaming reader under faults, `visitEntry` / `streamEntryCI`). -/
+def retried {α} (m : M α) : M α := fun fa d =>
+  match fa with
+  | none => m none d
+  | some k =>
+    if d.fkind = .interrupted ∧ d.calls ≤ k ∧ k < (m none d).2.calls then
+      ((m none d).1, { (m none d).2 with calls := (m none d).2.calls + 1 })
+    else m (some k) d
+
 end M
 end ZipVerif.Model
